@@ -285,11 +285,14 @@ func refBigintBytes(v *big.Int) []byte {
 // ---- multisig contract: builder and parser agree on what a standard contract is ----------------------------------
 
 type MultisigShapeCase struct {
-	N       int      `json:"n"`       // number of keys (big values aim at the 1024 limit)
-	M       int      `json:"m"`       //
-	LongAt  int      `json:"long_at"` // position of a "key" of LongLen bytes in a hand-made script (small n only), -1: none
-	LongLen int      `json:"long_len"`
-	Seed    vt.Bytes `json:"seed"`
+	N       int `json:"n"`       // number of keys (big values aim at the 1024 limit)
+	M       int `json:"m"`       //
+	LongAt  int `json:"long_at"` // position of a "key" of LongLen bytes in a hand-made script (small n only), -1: none
+	LongLen int `json:"long_len"`
+	// WideCount > 0 (small n only, instead of the odd key): one count is pushed by a wider instruction than the builder
+	// ever uses for it: odd - the signature count, even - the key count; (WideCount-1)/2: PUSHINT32, 64, 128, 256.
+	WideCount int      `json:"wide_count,omitempty"`
+	Seed      vt.Bytes `json:"seed"`
 }
 
 func genMultisigShapeCase(t *rapid.T) MultisigShapeCase {
@@ -303,6 +306,9 @@ func genMultisigShapeCase(t *rapid.T) MultisigShapeCase {
 	c.M = rapid.IntRange(1, c.N).Draw(t, "m")
 	c.LongAt = rapid.IntRange(0, c.N-1).Draw(t, "long_at")
 	c.LongLen = rapid.SampledFrom([]int{32, 34, 35, 36, 40, 64, 65, 75}).Draw(t, "long_len")
+	if rapid.IntRange(0, 2).Draw(t, "wide") == 0 {
+		c.WideCount = rapid.IntRange(1, 8).Draw(t, "wide_count")
+	}
 	return c
 }
 
@@ -349,8 +355,19 @@ func checkMultisigShapeCase(c MultisigShapeCase, o *vt.Obs) error {
 		return nil
 	}
 	// a hand-made script of the multisig shape with one "key" of another length
+	wide := func(v int) []byte {
+		i := (c.WideCount - 1) / 2 % 4
+		b := make([]byte, 1+(4<<uint(i)))
+		b[0] = byte(opPUSHINT8 + 2 + i)
+		b[1] = byte(v)
+		return b
+	}
 	var script []byte
-	script = append(script, refPushSmall(c.M)...)
+	if c.WideCount > 0 && c.WideCount%2 == 1 {
+		script = append(script, wide(c.M)...)
+	} else {
+		script = append(script, refPushSmall(c.M)...)
+	}
 	for i := 0; i < c.N; i++ {
 		d := new(big.Int).Add(base, big.NewInt(int64(i)))
 		d.Mod(d, curveOf(curveR1).Params().N)
@@ -359,7 +376,7 @@ func checkMultisigShapeCase(c MultisigShapeCase, o *vt.Obs) error {
 		}
 		x, y := curveOf(curveR1).ScalarBaseMult(d.FillBytes(make([]byte, 32)))
 		enc := append([]byte{byte(2 + y.Bit(0))}, x.FillBytes(make([]byte, 32))...)
-		if i == c.LongAt {
+		if i == c.LongAt && c.WideCount == 0 {
 			for len(enc) < c.LongLen {
 				enc = append(enc, byte(len(enc)))
 			}
@@ -368,9 +385,25 @@ func checkMultisigShapeCase(c MultisigShapeCase, o *vt.Obs) error {
 		script = append(script, opPUSHDATA1, byte(len(enc)))
 		script = append(script, enc...)
 	}
-	script = append(script, refPushSmall(c.N)...)
+	if c.WideCount > 0 && c.WideCount%2 == 0 {
+		script = append(script, wide(c.N)...)
+	} else {
+		script = append(script, refPushSmall(c.N)...)
+	}
 	script = append(script, opSYSCALL)
 	script = append(script, interopID("System.Crypto.CheckMultisig")...)
+	if c.WideCount > 0 {
+		// same numbers for the VM, a spelling the builder never produces (and the fee calculator does not price)
+		o.Labelf("wide-count-push %x", wide(1)[0])
+		if m, ks, ok := scparser.ParseMultiSigContract(script); ok {
+			return fmt.Errorf("ParseMultiSigContract accepts a script whose %s count is pushed by opcode %#x (m=%d, %d keys): CreateMultiSigRedeemScript pushes counts with PUSH1..PUSH16, PUSHINT8 or PUSHINT16 only, fee.Calculate prices those", map[bool]string{true: "signature", false: "key"}[c.WideCount%2 == 1], wide(1)[0], m, len(ks))
+		}
+		if scparser.IsMultiSigContract(script) || scparser.IsStandardContract(script) {
+			return fmt.Errorf("Is*Contract classify a script with a wide count push as standard")
+		}
+		o.NonTrivial()
+		return nil
+	}
 	o.Labelf("odd-key-length %d", c.LongLen)
 	if m, ks, ok := scparser.ParseMultiSigContract(script); ok {
 		return fmt.Errorf("ParseMultiSigContract accepts a script whose key %d is %d bytes long (m=%d, %d keys, key %x): a standard multisig contract holds 33-byte keys only (CreateMultiSigRedeemScript cannot produce this script)", c.LongAt, c.LongLen, m, len(ks), ks[c.LongAt])
